@@ -1,0 +1,14 @@
+//go:build verif
+
+package fs
+
+// Contracts for the deductive verifier in /verif (govc). Comments only; compiled solely with -tags verif.
+
+// A PathHasher's algorithm is fixed at construction: its size, name and hash constructor are functions of
+// the hasher (assumed; `new` is a function-typed field).
+//@ assume func (PathHasher).Size
+//@   pure
+//@ assume func (PathHasher).AlgoName
+//@   pure
+//@ assume func (PathHasher).NewHash
+//@   pure
